@@ -189,6 +189,19 @@ def float_schedules(n, rnd, case="kundur/kundur_full.json", tf_max=3.0):
     return out
 
 
+def late_schedules(case="kundur/kundur_full.json"):
+    """Events beyond 10 s (where a relative tolerance of 1e-5 is wider than the 0.1 ms bracket around an event time), also
+    two events 0.2 ms apart and a split exactly at an event."""
+    tg = TARGETS[case]
+    out = []
+    for tstep, times, segs in [(0.1, [10.5], [11.0]), (0.1, [10.5, 10.5002], [10.9]), (1 / 30, [10.05, 10.4], [10.2, 10.7]),
+                               (0.1, [10.3, 10.6], [10.6, 10.9]), (0.05, [12.0], [12.0])]:
+        evs = [dict(add="Toggle", model=tg["model"], dev=tg["devs"][0], t=t) for t in times]
+        sid = "late[ts=%.6g|ev=%s|seg=%s]" % (tstep, ",".join("%.6g" % t for t in times), "/".join("%.6g" % x for x in segs))
+        out.append(dict(sid=sid, case=case, events=evs, segs=segs, family="float", tds=dict(tstep=tstep, fixt=1, no_tqdm=1)))
+    return out
+
+
 def known_float_regressions(case="kundur/kundur_full.json"):
     """Fixed schedules that once exposed a defect (kept so that the defect is re-found if it returns)."""
     tg = TARGETS[case]
